@@ -6,7 +6,7 @@ META = {
     "technique": "Lean 4 theorems over an executable model of groupbalancer.go (Range, RoundRobin, RackAffinity with Go's map iteration orders as explicit parameters), for all member / partition lists; model↔code differential correspondence through a compiled Lean oracle on exhaustively enumerated small groups and seeded random large ones; the C14 monitor (cover, only-subscribers, balance, run/stride shape, rack bound) is evaluated on the implementation's output",
     "level_claimed": {
         "category": "proof",
-        "text": "Kernel-checked theorems for every list of members with distinct ids and duplicate-free topic lists and every list of partitions (no size bound): each listed partition of a subscribed topic goes to exactly one subscriber, nothing to non-subscribers, loads differ by at most one — for Range, RoundRobin and RackAffinity; Range = contiguous runs by id rank, RoundRobin = strides by id rank, both invariant under member listing order; RackAffinity for every iteration order of its two Go map loops: no out-of-range slice/index (rack_total), cover, balance and the per-rack affinity bound min(led in rack, members in rack x floor(P/M)). The model is tied to groupbalancer.go by index/selection/ordering expressions re-extracted from the source on every run (Gen/GroupBalancerSel.lean, *_regenerated theorems) and by running the real AssignGroups and the model on the same generated groups (RackAffinity: equal to the model for some pair of iteration orders).",
+        "text": "Kernel-checked theorems for every list of members with distinct ids (topic lists may repeat topics) and every list of partitions (no size bound): each listed partition of a subscribed topic goes to exactly one subscriber, nothing to non-subscribers, loads differ by at most one — for Range, RoundRobin and RackAffinity; Range = contiguous runs by id rank, RoundRobin = strides by id rank, both invariant under member listing order; RackAffinity for every iteration order of its two Go map loops: no out-of-range slice/index (rack_total), cover, balance and the per-rack affinity bound min(led in rack, members in rack x floor(P/M)). The model is tied to groupbalancer.go by index/selection/ordering expressions re-extracted from the source on every run (Gen/GroupBalancerSel.lean, *_regenerated theorems) and by running the real AssignGroups and the model on the same generated groups (RackAffinity: equal to the model for some pair of iteration orders). Leader glue (joinGroup / makeMemberProtocolMetadata / assignTopicPartitions / makeSyncGroupRequestV0 / syncGroup) modelled as pure functions: glue_preserves (what a member decodes is its own entry of the balancer's map, nothing leaks between members, for every map iteration order), *_delivered (cover / balance / only-subscribers hold of what the members RECEIVE); tied by driving the real glue through verif_export_c14b.go and by extracted structural facts (fresh per-member map, repeated-topic guard).",
         "design_ref": "DESIGN.md §7 C14",
     },
     "level_note": "Trusted: Lean kernel; propext/Classical.choice/Quot.sound; the driver/oracle correspondence (exhaustive small + sampled large inputs; Go's map iteration order is sampled, the theorems quantify over all orders); Go's sort.Slice and string comparison are modelled (insertion sort over an order-embedding of the ids) and validated by correspondence only; ids/topics/racks are opaque keys.",
@@ -18,11 +18,12 @@ MODULE = "KafkaVerif.Props.C14"
 def run(ctx):
     ctx.assumptions += [
         "member ids are distinct (the property speaks of a set of members)",
-        "a member lists a topic at most once (a subscription is a set of topics); with a repeated topic Range/RoundRobin give that member two shares — outside the quantifier, exercised only for model fidelity",
+        "a member's topic list may repeat a topic (user input); it subscribes to t iff t occurs in the list — finding C14-D30 (fixed) was the code counting such a member twice",
+        "glue: the wire is modelled as the sequence of (topic, int32 array) entries; the primitive byte codecs are C04's (exercised here on the real code, not re-proved); partition ids fit int32; the coordinator hands every member the bytes listed under its id",
         "partition ids are arbitrary ints and may repeat: cover is stated on multisets (listed partitions)",
         "RackAffinity: the iteration orders are duplicate-free lists containing every rack that leads a partition of the topic (IterOrder) — what ranging over a Go map gives when only the current key is replaced/deleted inside the loop",
         "Go int arithmetic on indices/lengths is modelled on Nat: index x length products do not overflow int64 for real slices",
-        "the leader glue (consumergroup.go assignTopicPartitions) passes members/partitions through unchanged; its traces are covered by C15",
+        "the glue is driven synchronously (one rebalance round, members[0] leader, byte-forwarding coordinator); the concurrent life cycle around it belongs to C15",
     ]
     broken = []
     ok, log = ctx.extract("groupbalancer", ["lean/KafkaVerif/Gen/GroupBalancerSel.lean"])
@@ -44,15 +45,16 @@ def run(ctx):
                              nontrivial=lambda op, impl: impl != "-")
     ctx.coverage["rule"] = (
         "exhaustive: members 1..4 (ids from a pool of tricky strings: prefixes, empty, NUL, high-bit, 'member-10' vs 'member-9'), "
-        "topics <= 2 with all 5 subscription listings per member ({}, {0}, {1}, {0,1}, {1,0}), partitions (p0,p1) with p0+p1 <= 6 listed interleaved "
-        "in shuffled id order (sometimes sparse ids), all member listing orders for n <= 3 (n = 4: 1/2 sample x 2 orders in quick, all 24 in thorough); "
+        "topics <= 2 with all 7 subscription listings per member ({}, {0}, {1}, {0,1}, {1,0}, {0,0}, {1,0,1}), partitions (p0,p1) with p0+p1 <= 6 listed interleaved "
+        "in shuffled id order (sometimes sparse ids), all member listing orders for n <= 3 (n = 4: 1/6 sample x 2 orders in quick, all 24 in thorough); "
         "random: 1200 (quick) / 6000 (thorough) groups with 1..40 members, 1..4 topics, 0..60 (..400) partitions per topic incl. near multiples of the "
-        "member count, 1..4 racks; 60 cases outside the hypotheses (repeated topic / equal ids) for model fidelity only. "
+        "member count, 1..4 racks; 1/5 of the random members repeat a topic; 300 cases outside the hypothesis (equal ids) for model fidelity only. leader glue: ops grange/grr/grack = the same groups run through the real joinGroup+syncGroup round (members[0] leader), 3x (quick) / 8x (thorough) to sample map orders, impl = what every member receives: every small group with >= 2 members (one balancer each, rotating) and every random group (all three). "
         "helpers findMembersByTopic / findPartitions (verif export hook) on every random group and 1/7 of the small ones; "
         "RackAffinity: each group called 4 (quick) / 12 (thorough) times, every distinct output is a case (Go map order is sampled, not controlled). "
         "distinct = distinct op lines with a non-empty assignment")
     concrete = [d for d in dis if d.get("kind") == "disagreement" and not d["holds_on_impl"]]
-    others = [d for d in dis if d not in concrete]
+    cids = {id(d) for d in concrete}          # (list membership on 10^5 dicts is quadratic: a mutant must cost seconds)
+    others = [d for d in dis if id(d) not in cids]
     recorded = 0
     for d in concrete[:50]:
         recorded += ctx.violation({"kind": "input", "input": d["op"], "actual": d["impl"], "expected": d["model"],
